@@ -8,7 +8,7 @@ from sa.extract import exit_flows, subparsers
 from sa.terms import C, P, SubC, is_call, is_const, show
 from sa.walker import State, flatten_events
 
-from . import fn_site
+from . import flat, fn_site
 
 EXPLANATION = (
     "R1: every path of the verify-metadata handler that returns a value which may be falsy/0 contains a successful call "
@@ -66,12 +66,12 @@ def run(ctx):
             k = ("failure-status", show(v))
             text = "failure paths return the non-zero integer %s" % show(v) if ok else "a failure path returns %s, which is not a non-zero integer constant" % show(v)
         else:
-            root_ok = [ev for ev in p.events if ev[0] == "call" and ev[2] == "repo:authentication.verify_root" and ev[5][0] == "ok" and tuple(eng.expand(a) for a in ev[3][:2]) == (Tm, Um)]
-            del_ok = [ev for ev in p.events if ev[0] == "call" and ev[2] == "repo:authentication.verify_delegation" and ev[5][0] == "ok" and len(ev[3]) >= 3 and eng.expand(ev[3][0]) == uty and eng.expand(ev[3][1]) == Um and eng.expand(ev[3][2]) == Tm]
+            root_ok = [ev for ev in flat(p) if ev[0] == "call" and ev[2] == "repo:authentication.verify_root" and ev[5][0] == "ok" and tuple(eng.expand(a) for a in ev[3][:2]) == (Tm, Um)]
+            del_ok = [ev for ev in flat(p) if ev[0] == "call" and ev[2] == "repo:authentication.verify_delegation" and ev[5][0] == "ok" and len(ev[3]) >= 3 and eng.expand(ev[3][0]) == uty and eng.expand(ev[3][1]) == Um and eng.expand(ev[3][2]) == Tm]
             is_root = st.holds(("eq", uty, C("root")))
             not_root = st.holds(("ne", uty, C("root")))
             ok = (bool(root_ok) and is_root) or (bool(del_ok) and not_root)
-            anyv = [ev for ev in p.events if ev[0] == "call" and ev[2] in ("repo:authentication.verify_root", "repo:authentication.verify_delegation")]
+            anyv = [ev for ev in flat(p) if ev[0] == "call" and ev[2] in ("repo:authentication.verify_root", "repo:authentication.verify_delegation")]
             k = ("success-status", show(v), "ok" if ok else "|".join("%s(%s)->%s" % (ev[2].split(".")[-1], ",".join(show(a)[:40] for a in ev[3][:3]), ev[5][0]) for ev in anyv) or "no-verifier-call")
             text = (
                 "paths returning %s (exit status 0) all follow a successful verify_root(trusted, untrusted) for declared type root / verify_delegation(declared type, untrusted, trusted) otherwise" % show(v)
@@ -139,7 +139,7 @@ def run(ctx):
             if p.kind != "return" or not maybe_falsy(p.value):
                 continue
             n += 1
-            if not any(ev[0] == "call" and ev[2] in ["repo:" + s for s in signers] and ev[5][0] == "ok" for ev in p.events):
+            if not any(ev[0] == "call" and ev[2] in ["repo:" + s for s in signers] and ev[5][0] == "ok" for ev in flat(p)):
                 bad += 1
         ctx.count("R4.signing_handlers")
         ctx.ob("R4", "signed-before-success|%s" % sub["func"], fn_site(eng, smh).loc(), "%s %s" % (sub["func"], "returns a zero/None status only after %s returned normally (%d such paths)" % (", ".join(signers), n) if not bad else "can return a zero/None status without having signed (%d of %d falsy-return paths do not follow a successful signer call)" % (bad, n)), bad == 0 and n > 0)
